@@ -132,6 +132,30 @@ func c08RunCase(cs c08Case) string {
 		if msg != "" {
 			return msg
 		}
+		// ... nor may Execute, Run or Dump on an evaluator whose script was refused: they
+		// report the situation
+		for _, st := range []string{"Execute", "Run", "Dump"} {
+			func() {
+				defer func() {
+					if r := recover(); r != nil {
+						msg = fmt.Sprintf("panic in %s after a refused Prepare: %v", st, r)
+					}
+				}()
+				switch st {
+				case "Execute":
+					if res, xerr := evr.E.Execute(obj); xerr == nil && res == nil {
+						msg = "panic-equivalent: Execute after a refused Prepare returned a nil object and a nil error"
+					}
+				case "Run":
+					evr.E.Run(obj)
+				case "Dump":
+					evr.E.Dump()
+				}
+			}()
+			if msg != "" {
+				return msg
+			}
+		}
 		return "ok rejected"
 	}
 	steps := []string{"Execute", "Run", "Dump", "Execute", "Run-nil", "Run"}
@@ -666,6 +690,8 @@ func c08CompileGrowth(c *ev.Ctx) {
 		{"while", "while (x) { ", " x = 0; }"},
 		{"foreach-range", "foreach a in 1..2 { ", " }"},
 		{"function-definition", "function inner() { ", " }"},
+		{"function-definition-in-a-two-value-case", "switch (x) { case 1, 2 { function inner() { ", " } } }"},
+		{"function-definition-in-a-case-of-a-function", "function outer2() { switch (x) { case 1, 2, 3 { function inner() { ", " } } default { y = 1; } } }"},
 	}
 	var maxSeen uint64
 	for _, sh := range shapes {
